@@ -375,6 +375,9 @@ pub(super) fn derive_schema(input: TokenStream) -> syn::Result<TokenStream> {
                     None    => &container_attrs.serde.rename_all_fields,
                 };
 
+                /* serde writes a unit variant without any content */
+                let is_unit = matches!(v.fields, Fields::Unit);
+
                 let mut schema = if let Some(schema_with) = &variant_attrs.openapi.schema_with {
                     let schema_with = syn::parse_str::<Path>(schema_with)?;
                     quote! {
@@ -393,6 +396,12 @@ pub(super) fn derive_schema(input: TokenStream) -> syn::Result<TokenStream> {
                         schema
                     }
 
+                    (None, _, _) if is_unit => {/* Externally tagged, unit: the bare name */
+                        quote! {
+                            ::ohkami::openapi::string().enumerates([#tag])
+                        }
+                    }
+
                     (None, _, _) => {/* Externally tagged */
                         quote! {
                             ::ohkami::openapi::object()
@@ -404,6 +413,14 @@ pub(super) fn derive_schema(input: TokenStream) -> syn::Result<TokenStream> {
                         let t = LitStr::new(t, Span::call_site());
                         quote! {
                             #schema
+                                .property(#t, ::ohkami::openapi::string().enumerates([#tag]))
+                        }
+                    }
+
+                    (Some(t), Some(_), _) if is_unit => {/* Adjacently tagged, unit: the tag alone */
+                        let t = LitStr::new(t, Span::call_site());
+                        quote! {
+                            ::ohkami::openapi::object()
                                 .property(#t, ::ohkami::openapi::string().enumerates([#tag]))
                         }
                     }
